@@ -405,13 +405,20 @@ func genC19(r *hx.Rng, tier string, w io.Writer) {
 		}
 	} else {
 		i := 0
-		for _, b := range []*base{rb, l1} {
-			for pos := 0; pos < len(b.file); pos++ {
-				emit(b, pos, masks[r.Intn(len(masks))], i)
-				i++
-				emit(b, pos, byte(1+r.Intn(255)), i)
+		// every single-bit corruption of the real file; two random corruptions per byte of the legacy file
+		for pos := 0; pos < len(rb.file); pos++ {
+			for _, m := range masks[:8] {
+				emit(rb, pos, m, i)
 				i++
 			}
+			emit(rb, pos, byte(1+r.Intn(255)), i)
+			i++
+		}
+		for pos := 0; pos < len(l1.file); pos++ {
+			emit(l1, pos, masks[r.Intn(len(masks))], i)
+			i++
+			emit(l1, pos, byte(1+r.Intn(255)), i)
+			i++
 		}
 	}
 
